@@ -119,6 +119,20 @@ def run(ctx):
         buf = bytearray(r.randrange(256) for _ in range(n))
         view = r.random() < 0.3
         obj = memoryview(buf) if view else buf
+        if view and n >= 5 and r.random() < 0.5:
+            # a window into a larger buffer (a frame inside a receive buffer): only the window counts
+            lo, hi = r.randrange(0, 2), n - r.randrange(0, 2)
+            whole = bytearray(r.randrange(256) for _ in range(3)) + buf + bytearray(r.randrange(256) for _ in range(2))
+            for fn_ in (utils.make_checksum, codec.make_checksum):
+                win = memoryview(whole)[3 + lo:3 + hi]
+                try:
+                    got = "ok " + hexb(fn_(win))
+                except Exception as e:  # noqa
+                    got = "err " + type(e).__name__
+                why = oracle(sum(whole[3 + lo:3 + hi]), got)
+                if why:
+                    s.fail({"kind": "memoryview window", "buffer": bytes(whole).hex(), "window": [3 + lo, 3 + hi]},
+                           "a memoryview window into a larger buffer: " + why, "C06/mutable/window-" + why.split(":")[0])
         steps = []
         bad = None
         for _k in range(r.choice([2, 3, 4])):
@@ -155,6 +169,40 @@ def run(ctx):
                                "C06/log-level/" + why.split(":")[0])
         s.case({"codepoints": cps(t[:16]), "levels": "DEBUG,INFO,WARNING"})
         s.count("levels")
+    streams.append(s)
+
+    # --- several threads checksumming long texts / byte strings at the same time: each gets the checksum of its own data
+    s = Stream("concurrent-calls")
+    import threading
+    rt = ctx.rng("C06.threads")
+    texts = ["".join(chr(rt.randrange(1, 256)) for _ in range(1000)) * (400 if i % 2 else 300) for i in range(3)]
+    datas = [t.encode("latin-1") for t in texts]
+    wrong = []
+
+    def worker(i):
+        exp = gens_checksum(datas[i])
+        for k in range(6 if ctx.thorough else 3):
+            for inp in (texts[i], datas[i]):
+                got = utils.make_checksum(inp)
+                if got != exp:
+                    wrong.append((i, k, type(inp).__name__, got, exp))
+    from harness.gens import checksum as gens_checksum
+    import sys as _sys
+    old_si = _sys.getswitchinterval()
+    _sys.setswitchinterval(1e-5)
+    try:
+        ths = [threading.Thread(target=worker, args=(i,)) for i in range(3)]
+        [t.start() for t in ths]
+        [t.join() for t in ths]
+    finally:
+        _sys.setswitchinterval(old_si)
+    s.case({"threads": 3, "text_lengths": [len(t) for t in texts]})
+    s.evaluations += 3 * 2 * (6 if ctx.thorough else 3)
+    if wrong:
+        i, k, kind, got, exp = wrong[0]
+        s.fail({"thread": i, "round": k, "input": kind, "got": got.decode("latin-1"), "expected": exp.decode(), "wrong_results": len(wrong)},
+               "with three threads checksumming at the same time, a %s input of %d characters gets checksum %r instead of %r"
+               % (kind, len(texts[i]), got, exp), "C06/threads/value")
     streams.append(s)
 
     # --- every other function the package exposes under the name make_checksum (re-exports, wrappers) is the checksum
